@@ -91,10 +91,6 @@ def lastZero (p : Prog) : Bool :=
   | none => true
   | some (.mk neg c) => !neg && zeroCmd c
 
-def startsWithSetE : Prog → Bool
-  | .cons (.mk false (.setE _)) _ => true
-  | _ => false
-
 def levelsOk (tl : List Bool) (n : Option Int) : Bool :=
   let m := optInt n
   decide (1 ≤ m) && decide (m.toNat ≤ tl.length) && (tl.take m.toNat).all id
@@ -126,9 +122,8 @@ mutual
     | .trapExit b => k.top && simpleTrap b
     -- [finding C26-err-trap] ERR traps are outside the proved fragment
     | .trapErr b => b.isNil
-    -- [findings C26-subshell-errexit-ignored, C26-cmdsubst-errexit]
-    | .assignSub _ p =>
-      !(k.e && (k.ign || k.unk)) && (!k.e || startsWithSetE p) && supProg (subCtx k) false p
+    -- [finding C26-subshell-errexit-ignored]
+    | .assignSub _ p => !(k.e && (k.ign || k.unk)) && supProg (subCtx k) false p
     | .subsh p => !(k.e && (k.ign || k.unk)) && supProg (subCtx k) false p
     | .block p => supProg k true p
     | .and x y => supStmt { k with ign := true, tl := headFalse k.tl } x && supStmt k y
